@@ -321,11 +321,21 @@ Proof.
   unfold run_undo in H. destruct (n <? 1)%Z.
   { inversion H; subst. split; [discriminate|split; [reflexivity|exact Hu]]. }
   unfold run_undo_like in H.
-  destruct (open_stack PRequire w) as [op|] eqn:Hop.
+  destruct (open_stack PRequire w) as [op0|] eqn:Hop.
   2:{ unfold err2 in H. inversion H; subst. split; [discriminate|split; [reflexivity|exact Hu]]. }
-  destruct (open_stack_frame _ _ _ Hop) as [Hb [_ Hum]].
+  destruct (open_stack_frame _ _ _ Hop) as [Hb0 [_ Hum0]].
+  destruct (log_extmods_first op0) as [op|] eqn:Hlf.
+  2:{ unfold err2 in H. inversion H; subst. split; [discriminate|split; [exact Hb0|congruence]]. }
+  assert (Hfr : w_branch (op_world op) = w_branch (op_world op0)
+                /\ w_unmerged (op_world op) = w_unmerged (op_world op0)).
+  { unfold log_extmods_first in Hlf. destruct (Nat.eqb _ _); [inversion Hlf; subst; split; reflexivity|].
+    destruct (log_external_mods _ _) as [[w1 s1]|] eqn:Hl; [|discriminate].
+    apply log_external_mods_frame in Hl. destruct Hl as [A [_ C]].
+    inversion Hlf; subst. cbn [op_world]. split; assumption. }
+  destruct Hfr as [Hb1 Hum1].
+  assert (Hb : w_branch (op_world op) = w_branch w) by congruence.
   assert (Hu1 : w_unmerged (op_world op) = true) by congruence.
-  unfold transact in H.
+  clear Hlf. unfold transact in H.
   set (t0 := begin_txn op (opts CDisallow true false true true true)) in *.
   assert (Ht0 : t_opts t0 = opts CDisallow true false true true true) by reflexivity.
   assert (Ht0u : t_wt_unmerged t0 = true) by exact Hu1.
